@@ -3,6 +3,7 @@
 The analyses reason about attribute reads and writes. Two reflective idioms hide them without changing what happens:
   * getattr(x, "lit") / setattr(x, "lit", v) / with a literal name            -> x.lit / x.lit = v
   * for a in ("n1", "n2", ...): <body using a only as such a literal name>     -> the body once per literal
+  * for a, b in ((x1, y1), (x2, y2), ...): <body>   (a literal table of names/constants)  -> the body once per row
 The second is applied only when the loop iterates a literal tuple/list of string constants, has no else clause, and its
 body contains no break/continue (return is fine) and does not assign the loop variable; the unrolled copies keep the
 line numbers of the original statements.  Dynamic uses (getattr(obj, fmt.map(k))) are left alone.
@@ -18,6 +19,39 @@ class _Subst(ast.NodeTransformer):
     def visit_Name(self, n):
         if n.id == self.name and isinstance(n.ctx, ast.Load):
             return ast.copy_location(ast.Constant(value=self.value), n)
+        return n
+
+
+def _simple(e):
+    return isinstance(e, (ast.Constant, ast.Name)) or (isinstance(e, ast.Attribute) and _simple(e.value))
+
+
+def _pairs_unrollable(st):
+    """for a, b in ((x1, y1), (x2, y2), ...): a literal table of simple expressions"""
+    if not (isinstance(st, ast.For) and isinstance(st.target, ast.Tuple) and not st.orelse
+            and all(isinstance(t, ast.Name) for t in st.target.elts)):
+        return False
+    it = st.iter
+    if not (isinstance(it, (ast.Tuple, ast.List)) and 1 <= len(it.elts) <= 6):
+        return False
+    if not all(isinstance(e, (ast.Tuple, ast.List)) and len(e.elts) == len(st.target.elts) and all(_simple(v) for v in e.elts) for e in it.elts):
+        return False
+    names = set(t.id for t in st.target.elts)
+    for n in ast.walk(ast.Module(body=st.body, type_ignores=[])):
+        if isinstance(n, (ast.Break, ast.Continue, ast.FunctionDef, ast.Lambda, ast.ClassDef)):
+            return False
+        if isinstance(n, ast.Name) and n.id in names and isinstance(n.ctx, (ast.Store, ast.Del)):
+            return False
+    return True
+
+
+class _SubstExpr(ast.NodeTransformer):
+    def __init__(self, mapping):
+        self.mapping = mapping
+
+    def visit_Name(self, n):
+        if n.id in self.mapping and isinstance(n.ctx, ast.Load):
+            return ast.copy_location(copy.deepcopy(self.mapping[n.id]), n)
         return n
 
 
@@ -79,6 +113,17 @@ class Normaliser(ast.NodeTransformer):
         return node
 
     def visit_For(self, st):
+        if _pairs_unrollable(st):
+            res = []
+            for e in st.iter.elts:
+                mapping = dict((t.id, v) for t, v in zip(st.target.elts, e.elts))
+                for b in st.body:
+                    c = self.visit(_SubstExpr(mapping).visit(copy.deepcopy(b)))
+                    if isinstance(c, list):
+                        res.extend(c)
+                    else:
+                        res.append(c)
+            return res
         if _loop_unrollable(st):
             out = []
             for e in st.iter.elts:
